@@ -3,7 +3,6 @@ CRATES["adt"] = {
     "dir": "file-formats/world-data/wow-adt",
     "attach": [
         ("src/builder/serializer.rs", "adt/serializer.rs", "verif_kani_serializer", ""),
-        ("src/root_parser.rs", "adt/root_parser.rs", "verif_kani_root_parser", "pub(crate)"),
     ],
 }
 
@@ -28,9 +27,11 @@ H("C14", "adt", _A, "quick", "C14.b MMID/MWID offsets point at the byte where MM
   "three names with symbolic non-NUL ASCII bytes, probe name index symbolic", "3 names of lengths (3,1,2) / (1,3,2)",
   assumes=["name bytes in 1..=0x7F (builder rejects empty names; NUL cannot be stored)"], stubs=_ST)
 H("C14", "adt", _A, "quick", "C14.c write_chunk: declared size == payload bytes, consecutive chunks abut, reference walker tiles the output, payload reads back",
-  ["c14c_write_chunk_mver_mfbo", "c14c_write_chunk_mhdr_mamp"],
-  ["builder::serializer::write_chunk", "chunks::simple::MfboChunk::read_le", "chunks::simple::MhdrChunk::write_le"],
-  "MVER version, MFBO planes (18 x i16), MHDR flags/mtxf_offset, MAMP amplifier symbolic", "two chunks per harness", stubs=_ST)
+  ["c14c_write_chunk_mver_mfbo", "c14c_write_chunk_mhdr_mamp", "c14c_write_chunk_vec_payloads"],
+  ["builder::serializer::write_chunk", "builder::serializer::create_mddf_chunk", "chunks::simple::MfboChunk::read_le", "chunks::simple::MhdrChunk::write_le",
+   "chunks::placement::MddfChunk::write_le", "chunks::simple::MtxfChunk::write_le", "chunks::mcnk::mcly::MclyChunk::write_le"],
+  "MVER version, MFBO planes (18 x i16), MHDR flags/mtxf_offset, MAMP amplifier symbolic; MDDF x 2 placements, MTXF x 3 flags, MCLY x 1 layer with symbolic fields",
+  "two or three chunks per harness", stubs=_ST)
 H("C14", "adt", _A, "quick", "C14.d fixed-size records: write_le(read_le(b)) == b and both move exactly the documented size",
   ["c14d_rec_doodad_placement", "c14d_rec_wmo_placement", "c14d_rec_mcly_layer", "c14d_rec_sound_emitter", "c14d_rec_texture_height_params",
    "c14d_rec_mh2o_header", "c14d_rec_mh2o_instance", "c14d_rec_mh2o_attributes", "c14d_rec_mcin_entry", "c14d_rec_mfbo", "c14d_rec_mhdr",
@@ -80,31 +81,25 @@ H("C14", "adt", _A, "thorough", "C14.e witness: MCCV lost without MCNK flag 0x40
 H("C14", "adt", _A, "thorough", "C14.e witness: MCLQ last in file cannot be parsed", ["c14e_mcnk_liquid_last_witness"], _mcnk,
   "concrete: one MCNK whose only sub-chunk is an MCLQ (81 vertices), nothing behind it", "one input", stubs=_ST2, timeout=2400,
   expect="witness:KF-C14-mclq-size")
-_mh2o = ["builder::serializer::write_mh2o_chunk", "root_parser::parse_mh2o_chunk", "chunks::mh2o::header::Mh2oHeader::{has_liquid,has_attributes}",
-         "chunks::mh2o::Mh2oChunk::has_any_liquid"]
-H("C14", "adt", _A, "thorough", "C14.f MH2O with one liquid layer: declared size == bytes written, header offsets relative to chunk data, instance/attributes survive, no water on other chunks",
-  ["c14f_mh2o_layer_attrs_chunk0", "c14f_mh2o_layer_noattrs_chunk2"], _mh2o,
-  "one instance with all fields symbolic (stale offsets included), attributes symbolic, stale MH2O header symbolic; probe entry index symbolic over 256",
-  "water on terrain chunk 0 (with attributes) / chunk 2 (without); one layer, no vertex data, no exists bitmap", stubs=_ST2, timeout=2400)
-_R = "verif_kani_root_parser"
-H("C14", "adt", _R, "quick", "C14.f MH2O with 256 empty headers parses as 'no water'", ["c14f_mh2o_all_dry_is_none"],
-  ["root_parser::parse_mh2o_chunk"], "concrete: 3072 zero bytes", "one input", stubs=_ST)
-H("C14", "adt", _R, "quick", "canary", ["c14_root_parser_canary"], ["root_parser::parse_mh2o_chunk"], "vacuity twin", "-", expect="canary", stubs=_ST)
-RS = "std::hash::RandomState::new -> fixed SipHash keys (1,2) (environment model; the chunk-discovery HashMap only sees concrete chunk ids)"
-_ST3 = [FMT, TID, IMG, RS]
-_file = ["builder::adt_builder::AdtBuilder::{new,with_version,add_texture,add_model,add_wmo,add_doodad_placement,add_wmo_placement,add_mcnk_chunk,add_flight_bounds,build}",
-         "builder::validation::*", "builder::serializer::serialize_to_writer", "builder::serializer::write_mcnk_chunk", "builder::serializer::calculate_mhdr_offsets",
-         "builder::serializer::calculate_mcin_entries", "chunk_discovery::discover_chunks", "version::AdtVersion::detect_from_chunks",
-         "root_parser::parse_root_adt", "root_parser::parse_mcnk_chunks", "chunks::strings::parse_null_terminated_strings"]
-H("C14", "adt", _A, "thorough", "C14.h witness: Vanilla 1.9+ tile detected as another version (detector on the documented root chunk set)",
-  ["c14h_version_vanilla_late_witness"], ["version::AdtVersion::detect_from_chunks"],
-  "concrete: chunk map holding MCIN and MCNK (of the 8 ids the detector asks for, the only ones a VanillaLate tile has at root level)", "one input",
-  stubs=[FMT, TID, RS], timeout=2400, expect="witness:KF-C14-version-detect")
-H("C14", "adt", _A, "thorough", "C14.g witness: MTXF read past the end of its chunk (smallest file)", ["c14g_mtxf_read_past_chunk_witness"],
-  ["builder::serializer::write_chunk", "builder::serializer::write_mcnk_chunk", "chunk_discovery::discover_chunks", "root_parser::parse_root_adt",
-   "chunks::simple::parse_texture_flags"], "concrete: MVER, MHDR, MTXF [7], one empty MCNK", "one input", stubs=_ST3, timeout=2400,
-  expect="witness:KF-C14-mtxf-unbounded")
+H("C14", "adt", _A, "thorough", "C14.g witness: the MTXF reader ignores the chunk size (MTXF directly in front of an MCNK, read the way parse_root_adt reads it)",
+  ["c14g_mtxf_reader_ignores_chunk_size_witness"],
+  ["builder::serializer::write_chunk", "builder::serializer::write_mcnk_chunk", "chunks::simple::MtxfChunk::read_le", "chunks::simple::parse_texture_flags"],
+  "concrete: MTXF [7] followed by one empty MCNK", "one input", stubs=_ST2, timeout=2400, expect="witness:KF-C14-mtxf-unbounded")
 H("C14", "adt", _A, "quick", "canary", ["c14_serializer_canary"], ["builder::serializer::calculate_mhdr_offsets"], "vacuity twin", "-",
   expect="canary", stubs=_ST)
 
-OUTSIDE["C14"] = []
+OUTSIDE["C14"] = [
+    "whole-file clauses: parse(serialise(build(x))) == x, framing tiles the whole file, MHDR/MCIN entries point at chunks of the named type, for any version - "
+    "serialize_to_writer / discover_chunks / parse_root_adt on a complete tile (>= 4.5 KB because of the 4096-byte MCIN, HashMap chunk discovery) "
+    "did not finish (> 40 min, > 7 GB for the smallest VanillaEarly tile); only the offset-table kernels, write_chunk framing and single-MCNK round trips are decided",
+    "stability under n >= 1 rounds of parse -> rebuild at file level (BuiltAdt::from_root_adt, AdtBuilder::from_parsed); decided only for one MCNK without sub-chunks",
+    "version detection of a serialised tile (AdtVersion::detect_from_chunks needs the discovery HashMap; harness did not finish) - defect KF-C14-version-detect is confirmed natively only",
+    "MCNK sub-chunks read through binrw `until_eof` (MCLY, MCRF, MCRD, MCRW, MCSE): write->parse harnesses ran out of memory; their 16/4/28-byte records, "
+    "declared sizes and framing are decided, the sub-chunk round trip is not (defect KF-C14-mcrf-phantom confirmed natively only)",
+    "MCAL, MCSH, MCLV, MCMT, MCBB sub-chunk content; MCNK sub-chunk combinations other than the listed single-kind shapes; more than one terrain chunk; "
+    "the 256 generated minimal chunks (write_minimal_mcnk_chunk)",
+    "MH2O write_mh2o_chunk -> parse_mh2o_chunk (out of memory even for one layer); only the 12/24/16-byte header/instance/attribute records are decided",
+    "MAMP/MTXP/MBMH/MBBB/MBNV/MBMI chunks beyond write_chunk framing of MAMP; MODF/MMID/MWID chunk-level (not record-level) round trips",
+    "name lists with more than 3 names or names longer than 3 bytes, non-ASCII names; builder validation functions (validate_*_filename, placement reference checks)",
+    "files of 4 GiB and more (u32 truncation of offsets), write_to_file (filesystem), to_bytes through std::io::Cursor<Vec<u8>>",
+]
